@@ -318,6 +318,28 @@ Definition effective (resumed : bool) (t : ticket) (h : hello) : hello :=
   | _, _ => h
   end.
 
+(* ---------- earlier connections of the router --------------------------------- *)
+
+(* receiveServerIdentity decodes the key from the CURRENT connection's
+   certificate and compares it with the identity announced on the CURRENT
+   connection; the router's table of registered connections is not consulted.
+   [prior]: keys of the peers that connected genuinely earlier (and may have
+   left).  [keycache] = true is NOT /repo: the variant that remembers, per
+   announced identity, the key decoded on an earlier connection and does not
+   look at the current certificate on a hit; kept for the refutation witness. *)
+Definition router_accepts_h (keycache : bool) (prior : list key) (s : suite) (c : cert) (id : ident) : bool :=
+  if keycache && match declared s c id with
+                 | Some d => existsb (Nat.eqb d) prior
+                 | None => false
+                 end
+  then true
+  else router_accepts s c id.
+
+(* the link with a history: /repo's decision does not depend on it *)
+Definition link_h (fx : fixes) (lv : level) (r : role) (s : suite) (prior : list key) (t : ticket)
+           (h : hello) (id : ident) (msgs : nat) : outcome * bool :=
+  link_r fx lv r s t h id msgs.
+
 (* ---------- several outgoing dials of one host -------------------------------- *)
 
 (* NewTLSConn builds a fresh tls.Config for every call and makeVerifier's closure
